@@ -124,8 +124,8 @@ def draw_theta(draw, spec, n_ids, cov, positive=False):
                 elif base['kind'] in ('pooled', 'hetero'):
                     b = f * th0[p * nd + d] / (n_cov * cmax[c])   # keep values positive
                 else:
-                    b = 2.0 * f
-                beta.append(gen.r6(b))
+                    b = 4.0 * f / (n_cov * max(cmax[c], 1e-9))     # location shifts by <= 3.6 (units of the covariate cancel)
+                beta.append(gen.sig6(b))
         return th0 + beta
     if k == 'red':
         raise ValueError('use draw_reduced')
@@ -144,12 +144,21 @@ def draw_reduced(draw, spec, n_ids, cov, min_fixed=1, positive=False):
     return red, theta
 
 
-def draw_cov_matrix(draw, n_ids, n_cov):
+COV_UNITS = [1e-9, 1e-12, 1e-7, 1e4]
+
+
+def draw_cov_matrix(draw, n_ids, n_cov, units=False):
+    """units=True: sometimes the covariates are recorded in other units (e.g. SI: 1e-9 .. 4e-9); draw_theta scales the
+    coefficients with 1 / max|covariate|, so the effect sizes stay the same."""
     if n_cov == 0:
         return None
     if gen.chance(draw, 0.06):
         return [[0.0] * n_cov for _ in range(n_ids)]
-    return draw(gen.mat(gen.real(-2, 2), n_ids, n_cov))
+    m = draw(gen.mat(gen.real(-2, 2), n_ids, n_cov))
+    if units and gen.chance(draw, 0.15 if units is True else units):
+        k = draw(st.sampled_from(COV_UNITS))
+        m = [[float(v * k) for v in row] for row in m]
+    return m
 
 
 def x_from_z(spec, n_ids, theta, z, cov):
